@@ -44,6 +44,9 @@ fn mk_c17() -> Vec<Box<dyn Monitor>> {
 fn mk_c10() -> Vec<Box<dyn Monitor>> {
     vec![Box::new(mon::c10::C10)]
 }
+fn mk_c12() -> Vec<Box<dyn Monitor>> {
+    vec![Box::new(mon::c12::C12)]
+}
 fn mk_c06() -> Vec<Box<dyn Monitor>> {
     vec![Box::new(mon::swaps::C06)]
 }
@@ -122,6 +125,16 @@ fn specs() -> Vec<CheckSpec> {
         level: "exploration",
         rule: "HIST for every landed swap (v1, v2, two-hop legs) the ticks the trace reports as crossed must be exactly the initialized ticks (bounds of positions with liquidity) between the current tick before and after, in price order, each once, with the liquidity after each crossing implied by the positions; half of the single swaps are replayed on forks under packaging faults: tick arrays permuted, duplicated/omitted (same result or failure), passed as v2 supplemental arrays with irrelevant arrays in the main slots, merely-named arrays created empty (fixed or dynamic), an array of another pool substituted (must fail); a case is one (instruction, direction, #crossed, shifted start, edge slot crossed, spacing, zero liquidity) tuple",
         quick_runs: 300,
+        thorough_secs: 600,
+        assumptions: COMMON_ASSUMPTIONS,
+    },
+    CheckSpec {
+        id: "C12",
+        profile: Profile::Core,
+        mk: mk_c12,
+        level: "exploration",
+        rule: "HIST every increase/decrease (v1, v2) that lands - successful or not, including under an injected CPI failure - is re-executed on a fork of its pre-state through the Anchor implementation still in the tree (try_accounts -> Context -> handler -> exit) and through the live Pinocchio routing; success <=> success, equal program error codes (>= 6000), and on success every account byte and lamport (pool, position, both tick arrays incl. dynamic resize and rent movement, vaults, user accounts), the CPI sequence and the emitted event must be identical; every whirlpool instruction is additionally executed through both the real entrypoint and the public handlers and compared; a case is one (instruction, live outcome, twin outcome, price region, #dynamic arrays, spacing) tuple",
+        quick_runs: 400,
         thorough_secs: 600,
         assumptions: COMMON_ASSUMPTIONS,
     },
